@@ -1,5 +1,460 @@
-//! Harness binary for property C08 (line protocol; see /verif/vlib/BUILDER_GUIDE.md).
+//! Protocols of property C08 (formatting never changes the program), implementation side.
+//!
+//! `E <width> <hex expr text>` / `S <width> <hex expr text>`  (protocol `fmt-expr`)
+//!     wrap the text as `class A { function f(): unit = <text> }`, parse it with the real parser,
+//!     dump the body's tree (no locations / comments), print the body with the real printer
+//!     (`pretty_print_expression`) and the module with `pretty_print_source_module`, re-parse the
+//!     printed module and dump the body again.
+//!     answer: `<T0>;<hex printed expr>;<T1>`   or `perr` (input does not parse)
+//!             T1 = `rerr` when the printed module has syntax errors.
+//! `M <width> <hex module text>`  (reparse oracle on whole modules)
+//!     answer: `perr` | `ok <n toplevels>` | `rerr:<hex message>` | `diff:<hex T0>:<hex T1>` | `panic:<hex>`
+//! `D <hex module text>`: dump of the module tree (debugging / replay).
+use samlang_ast::source::*;
+use samlang_errors::ErrorSet;
+use samlang_heap::{Heap, ModuleReference};
+use samverif_harness::util::*;
+use std::panic::{AssertUnwindSafe, catch_unwind};
+
+struct Dumper<'a> {
+  heap: &'a Heap,
+  out: String,
+}
+
+impl<'a> Dumper<'a> {
+  fn w(&mut self, s: &str) {
+    self.out.push_str(s);
+  }
+  fn id(&mut self, id: &Id) {
+    let s = id.name.as_str(self.heap).to_string();
+    self.w(&s);
+  }
+  fn list<T>(&mut self, tag: &str, xs: &[T], mut f: impl FnMut(&mut Self, &T)) {
+    self.w("(");
+    self.w(tag);
+    for x in xs {
+      self.w(" ");
+      f(self, x);
+    }
+    self.w(")");
+  }
+  fn targs(&mut self, t: Option<&annotation::TypeArguments>) {
+    if let Some(t) = t {
+      self.list("targs", &t.arguments, |d, a| d.annot(a));
+    }
+  }
+  fn annot_id(&mut self, a: &annotation::Id) {
+    self.w("(tid ");
+    self.id(&a.id);
+    if a.type_arguments.is_some() {
+      self.w(" ");
+    }
+    self.targs(a.type_arguments.as_ref());
+    self.w(")");
+  }
+  fn annot(&mut self, a: &annotation::T) {
+    match a {
+      annotation::T::Primitive(_, _, k) => self.w(k.kind_str()),
+      annotation::T::Id(i) => self.annot_id(i),
+      annotation::T::Generic(_, id) => {
+        self.w("(tgen ");
+        self.id(id);
+        self.w(")")
+      }
+      annotation::T::Fn(f) => {
+        self.w("(tfn ");
+        self.list("params", &f.parameters.annotations, |d, a| d.annot(a));
+        self.w(" ");
+        self.annot(&f.return_type);
+        self.w(")")
+      }
+    }
+  }
+  fn tparams(&mut self, t: Option<&annotation::TypeParameters>) {
+    if let Some(t) = t {
+      self.list("tparams", &t.parameters, |d, p| {
+        d.w("(");
+        d.id(&p.name);
+        if let Some(b) = &p.bound {
+          d.w(" : ");
+          d.annot_id(b);
+        }
+        d.w(")");
+      });
+    }
+  }
+  fn tuple_pattern(&mut self, p: &pattern::TuplePattern<()>) {
+    self.list("ptuple", &p.elements, |d, e| d.pattern(&e.pattern));
+  }
+  fn pattern(&mut self, p: &pattern::MatchingPattern<()>) {
+    match p {
+      pattern::MatchingPattern::Tuple(t) => self.tuple_pattern(t),
+      pattern::MatchingPattern::Object { elements, .. } => {
+        self.list("pobj", elements, |d, e| {
+          d.w("(");
+          d.id(&e.field_name);
+          d.w(if e.shorthand { " short " } else { " as " });
+          d.pattern(&e.pattern);
+          d.w(")");
+        })
+      }
+      pattern::MatchingPattern::Variant(v) => {
+        self.w("(pvariant ");
+        self.id(&v.tag);
+        if let Some(t) = &v.data_variables {
+          self.w(" ");
+          self.tuple_pattern(t);
+        }
+        self.w(")");
+      }
+      pattern::MatchingPattern::Id(id, _) => {
+        self.w("(pid ");
+        self.id(id);
+        self.w(")")
+      }
+      pattern::MatchingPattern::Wildcard { .. } => self.w("_"),
+      pattern::MatchingPattern::Or { patterns, .. } => {
+        self.list("por", patterns, |d, p| d.pattern(p))
+      }
+    }
+  }
+  fn block(&mut self, b: &expr::Block<()>) {
+    self.w("(block");
+    for s in &b.statements {
+      self.w(" ");
+      match s {
+        expr::Statement::Declaration(d) => {
+          self.w("(let ");
+          self.pattern(&d.pattern);
+          if let Some(a) = &d.annotation {
+            self.w(" : ");
+            self.annot(a);
+          }
+          self.w(" ");
+          self.expr(&d.assigned_expression);
+          self.w(")");
+        }
+        expr::Statement::Expression(e) => {
+          self.w("(stmt ");
+          self.expr(e);
+          self.w(")");
+        }
+      }
+    }
+    if let Some(e) = &b.expression {
+      self.w(" (final ");
+      self.expr(e);
+      self.w(")");
+    }
+    self.w(")");
+  }
+  fn if_else(&mut self, e: &expr::IfElse<()>) {
+    self.w("(if ");
+    match e.condition.as_ref() {
+      expr::IfElseCondition::Expression(c) => self.expr(c),
+      expr::IfElseCondition::Guard(p, c) => {
+        self.w("(guard ");
+        self.pattern(p);
+        self.w(" ");
+        self.expr(c);
+        self.w(")");
+      }
+    }
+    self.w(" ");
+    self.block(&e.e1);
+    self.w(" ");
+    match e.e2.as_ref() {
+      expr::IfElseOrBlock::IfElse(n) => self.if_else(n),
+      expr::IfElseOrBlock::Block(b) => self.block(b),
+    }
+    self.w(")");
+  }
+  fn expr(&mut self, e: &expr::E<()>) {
+    match e {
+      expr::E::Literal(_, Literal::Bool(b)) => self.w(if *b { "true" } else { "false" }),
+      expr::E::Literal(_, Literal::Int(i)) => self.w(&i.to_string()),
+      expr::E::Literal(_, Literal::String(s)) => {
+        let h = hex(s.as_str(self.heap).as_bytes());
+        self.w("(s ");
+        self.w(&h);
+        self.w(")");
+      }
+      expr::E::LocalId(_, id) => self.id(id),
+      expr::E::ClassId(_, _, id) => self.id(id),
+      expr::E::Tuple(_, l) => self.list("tuple", &l.expressions, |d, x| d.expr(x)),
+      expr::E::FieldAccess(f) => {
+        self.w("(. ");
+        self.expr(&f.object);
+        self.w(" ");
+        self.id(&f.field_name);
+        if f.explicit_type_arguments.is_some() {
+          self.w(" ");
+        }
+        self.targs(f.explicit_type_arguments.as_ref());
+        self.w(")");
+      }
+      expr::E::MethodAccess(f) => {
+        self.w("(.m ");
+        self.expr(&f.object);
+        self.w(" ");
+        self.id(&f.method_name);
+        if f.explicit_type_arguments.is_some() {
+          self.w(" ");
+        }
+        self.targs(f.explicit_type_arguments.as_ref());
+        self.w(")");
+      }
+      expr::E::Unary(u) => {
+        self.w(match u.operator {
+          expr::UnaryOperator::NOT => "(! ",
+          expr::UnaryOperator::NEG => "(neg ",
+        });
+        self.expr(&u.argument);
+        self.w(")");
+      }
+      expr::E::Call(c) => {
+        self.w("(call ");
+        self.expr(&c.callee);
+        for a in &c.arguments.expressions {
+          self.w(" ");
+          self.expr(a);
+        }
+        self.w(")");
+      }
+      expr::E::Binary(b) => {
+        self.w("(");
+        self.w(b.operator.kind_str());
+        self.w(" ");
+        self.expr(&b.e1);
+        self.w(" ");
+        self.expr(&b.e2);
+        self.w(")");
+      }
+      expr::E::IfElse(i) => self.if_else(i),
+      expr::E::Match(m) => {
+        self.w("(match ");
+        self.expr(&m.matched);
+        for c in &m.cases {
+          self.w(" (case ");
+          self.pattern(&c.pattern);
+          self.w(" ");
+          self.expr(&c.body);
+          self.w(")");
+        }
+        self.w(")");
+      }
+      expr::E::Lambda(l) => {
+        self.w("(lambda ");
+        self.list("params", &l.parameters.parameters, |d, p| {
+          d.w("(");
+          d.id(&p.name);
+          if let Some(a) = &p.annotation {
+            d.w(" : ");
+            d.annot(a);
+          }
+          d.w(")");
+        });
+        self.w(" ");
+        self.expr(&l.body);
+        self.w(")");
+      }
+      expr::E::Block(b) => self.block(b),
+    }
+  }
+  fn member_decl(&mut self, m: &ClassMemberDeclaration) {
+    self.w(if m.is_method { "(method " } else { "(function " });
+    self.w(if m.is_public { "public " } else { "private " });
+    self.id(&m.name);
+    self.w(" ");
+    self.tparams(m.type_parameters.as_ref());
+    self.w(" ");
+    self.list("params", &m.parameters.parameters, |d, p| {
+      d.w("(");
+      d.id(&p.name);
+      d.w(" : ");
+      d.annot(&p.annotation);
+      d.w(")");
+    });
+    self.w(" ");
+    self.annot(&m.return_type);
+  }
+  fn extends(&mut self, e: Option<&ExtendsOrImplementsNodes>) {
+    if let Some(e) = e {
+      self.list("extends", &e.nodes, |d, n| d.annot_id(n));
+    }
+  }
+  fn toplevel(&mut self, t: &Toplevel<()>) {
+    match t {
+      Toplevel::Interface(i) => {
+        self.w(if i.private { "(interface private " } else { "(interface " });
+        self.id(&i.name);
+        self.w(" ");
+        self.tparams(i.type_parameters.as_ref());
+        self.w(" ");
+        self.extends(i.extends_or_implements_nodes.as_ref());
+        for m in &i.members.members {
+          self.w(" ");
+          self.member_decl(m);
+          self.w(")");
+        }
+        self.w(")");
+      }
+      Toplevel::Class(c) => {
+        self.w(if c.private { "(class private " } else { "(class " });
+        self.id(&c.name);
+        self.w(" ");
+        self.tparams(c.type_parameters.as_ref());
+        self.w(" ");
+        match &c.type_definition {
+          None => self.w("(nodef)"),
+          Some(TypeDefinition::Struct { fields, .. }) => self.list("struct", fields, |d, f| {
+            d.w(if f.is_public { "(val " } else { "(private-val " });
+            d.id(&f.name);
+            d.w(" : ");
+            d.annot(&f.annotation);
+            d.w(")");
+          }),
+          Some(TypeDefinition::Enum { variants, .. }) => self.list("enum", variants, |d, v| {
+            d.w("(");
+            d.id(&v.name);
+            if let Some(l) = &v.associated_data_types {
+              for a in &l.annotations {
+                d.w(" ");
+                d.annot(a);
+              }
+            }
+            d.w(")");
+          }),
+        }
+        self.w(" ");
+        self.extends(c.extends_or_implements_nodes.as_ref());
+        for m in &c.members.members {
+          self.w(" ");
+          self.member_decl(&m.decl);
+          self.w(" ");
+          self.expr(&m.body);
+          self.w(")");
+        }
+        self.w(")");
+      }
+    }
+  }
+  /// imports are normalised the way the printer documents it: merged per module, members sorted,
+  /// modules sorted by name.
+  fn module(&mut self, m: &Module<()>) {
+    let mut imports: std::collections::BTreeMap<String, Vec<String>> = Default::default();
+    for i in &m.imports {
+      let e = imports.entry(i.imported_module.pretty_print(self.heap)).or_default();
+      for x in &i.imported_members {
+        e.push(x.name.as_str(self.heap).to_string());
+      }
+    }
+    self.w("(module");
+    for (k, mut v) in imports {
+      v.sort();
+      self.w(&format!(" (import {} {})", k, v.join(" ")));
+    }
+    for t in &m.toplevels {
+      self.w(" ");
+      self.toplevel(t);
+    }
+    self.w(")");
+  }
+}
+
+fn dump_module(heap: &Heap, m: &Module<()>) -> String {
+  let mut d = Dumper { heap, out: String::new() };
+  d.module(m);
+  d.out
+}
+
+fn dump_expr(heap: &Heap, e: &expr::E<()>) -> String {
+  let mut d = Dumper { heap, out: String::new() };
+  d.expr(e);
+  d.out
+}
+
+fn parse(heap: &mut Heap, text: &str) -> Result<Module<()>, String> {
+  let mut errors = ErrorSet::new();
+  let m = samlang_parser::parse_source_module_from_text(text, ModuleReference::DUMMY, heap, &mut errors);
+  if errors.has_errors() {
+    Err(errors.pretty_print_error_messages_no_frame_for_test(heap))
+  } else {
+    Ok(m)
+  }
+}
+
+fn body_of<'a>(m: &'a Module<()>) -> Option<&'a expr::E<()>> {
+  match m.toplevels.first()? {
+    Toplevel::Class(c) => c.members.members.first().map(|m| &m.body),
+    _ => None,
+  }
+}
+
+fn op_expr(width: usize, text: &str) -> String {
+  let mut heap = Heap::new();
+  let src = format!("class A {{ function f(): unit = {text} }}");
+  let m0 = match parse(&mut heap, &src) {
+    Ok(m) => m,
+    Err(_) => return "perr".to_string(),
+  };
+  if m0.toplevels.len() != 1 {
+    return "perr".to_string();
+  }
+  let Some(b0) = body_of(&m0) else { return "perr".to_string() };
+  let t0 = dump_expr(&heap, b0);
+  let etext = samlang_printer::pretty_print_expression(&heap, width, &m0.comment_store, b0);
+  let printed = samlang_printer::pretty_print_source_module(&heap, width, &m0);
+  let t1 = match parse(&mut heap, &printed) {
+    Ok(m1) => match body_of(&m1) {
+      Some(b1) if m1.toplevels.len() == 1 => dump_expr(&heap, b1),
+      _ => "rerr".to_string(),
+    },
+    Err(_) => "rerr".to_string(),
+  };
+  format!("{};{};{}", t0, hex(etext.as_bytes()), t1)
+}
+
+fn op_module(width: usize, text: &str) -> String {
+  let mut heap = Heap::new();
+  let m0 = match parse(&mut heap, text) {
+    Ok(m) => m,
+    Err(_) => return "perr".to_string(),
+  };
+  let t0 = dump_module(&heap, &m0);
+  let printed = samlang_printer::pretty_print_source_module(&heap, width, &m0);
+  match parse(&mut heap, &printed) {
+    Err(msg) => format!("rerr:{}:{}", hex(msg.as_bytes()), hex(printed.as_bytes())),
+    Ok(m1) => {
+      let t1 = dump_module(&heap, &m1);
+      if t0 == t1 {
+        format!("ok {}", m0.toplevels.len())
+      } else {
+        format!("diff:{}:{}:{}", hex(t0.as_bytes()), hex(t1.as_bytes()), hex(printed.as_bytes()))
+      }
+    }
+  }
+}
+
 fn main() {
-  eprintln!("c08: not implemented yet");
-  std::process::exit(2);
+  std::panic::set_hook(Box::new(|_| {}));
+  for_each_line(|line| {
+    let t: Vec<&str> = line.split(' ').collect();
+    let r = catch_unwind(AssertUnwindSafe(|| match t[0] {
+      "E" | "S" if t.len() == 3 => op_expr(t[1].parse().unwrap_or(100), &unhex_str(t[2])),
+      "M" if t.len() == 3 => op_module(t[1].parse().unwrap_or(100), &unhex_str(t[2])),
+      "D" if t.len() == 2 => {
+        let mut heap = Heap::new();
+        match parse(&mut heap, &unhex_str(t[1])) {
+          Ok(m) => dump_module(&heap, &m),
+          Err(e) => format!("perr {}", e.replace('\n', " / ")),
+        }
+      }
+      other => format!("bad-op {other}"),
+    }));
+    match r {
+      Ok(s) => s,
+      Err(e) => format!("panic:{}", hex(panic_msg(&e).as_bytes())),
+    }
+  });
 }
